@@ -1,5 +1,5 @@
 """Fact-file loader and indexes."""
-import json, os, re
+import json, os, re, sys
 
 class Facts:
     def __init__(self, path):
@@ -83,16 +83,13 @@ class Facts:
 
 def canonicalise_roles(raw):
     """rename private state fields to their canonical role names (spec/roles.py); returns {adt: {actual: canonical}}"""
-    try:
-        from spec.roles import ROLES
-    except ImportError:
-        return {}
+    _sp = os.path.join(os.path.dirname(os.path.dirname(os.path.abspath(__file__))), 'spec')
+    if _sp not in sys.path: sys.path.insert(0, _sp)
+    if os.path.dirname(_sp) not in sys.path: sys.path.insert(0, os.path.dirname(_sp))
+    from spec.roles import ROLES
     ren = {}
-    try:
-        from spec.roles import vector_roles
-        VR = vector_roles()
-    except ImportError:
-        VR = {}
+    from spec.roles import vector_roles
+    VR = vector_roles()
     for a in raw['adts']:
         roles = list(ROLES.get(a['path']) or []) + list(VR.get(a['path']) or [])
         if not roles or a.get('kind') != 'Struct' or len(a['variants']) != 1: continue
